@@ -7,7 +7,7 @@ CONSTANTS Forms
 Pairs(f) == {<<k, f[k]>> : k \in DOMAIN f}
 \* the state is only an identity for the harness (it rebuilds the graph); what it compares is Obs
 St == ToString(core)
-Obs == [out |-> out, alive |-> alive, forgotten |-> {p \in DOMAIN rR : Get(evN, p) > 0}, subs |-> subs, pending |-> PendIds \cup abandoned, done |-> done, failed |-> failed,
+Obs == [out |-> out, alive |-> alive, forgotten |-> {p \in DOMAIN rR : Get(evN, p) > 0} \cup openSeen, subs |-> subs, pending |-> PendIds \cup abandoned, done |-> done, failed |-> failed,
         ackedR |-> Pairs(aR), delivR |-> Pairs(dR), delivU |-> Pairs(dU), ids |-> ids]
 \* a data message (matches the extra subscribers) carries its acks appended; a PacketAck message does not match
 FormsFor(acks, match) == IF match THEN {"app"} ELSE
@@ -20,6 +20,7 @@ MNext == \/ \E p \in RelPids, acks \in AckSets : RecvRel(p, acks) /\ \A f \in Fo
               P([n |-> "Recv", p |-> p, rel |-> FALSE, acks |-> acks, form |-> f])
          \/ \E l \in Levels, k \in SubKinds : DoSubscribe(l, k) /\ P([n |-> "Subscribe", l |-> l, k |-> k])
          \/ Stray /\ P([n |-> "Stray", acks |-> PendIds])
+         \/ \E o \in Oldest : DoPing(o) /\ P([n |-> "Ping", oldest |-> o])
          \/ Lifecycle /\ GoAlive /\ P([n |-> "GoAlive"])
          \/ Lifecycle /\ Disconnect /\ P([n |-> "Disconnect"])
          \/ DoSendRel /\ P([n |-> "SendRel"])
